@@ -49,6 +49,9 @@ class VirtualLoop(asyncio.SelectorEventLoop):
             self._busy_polls = 0
             # jump exactly to the next timer (no float drift), capped like asyncio does
             sched = self._scheduled
+            if sched and sched[0]._when == float("inf"):
+                # the only timers left are sleep_forever() ones: nothing can ever wake the loop up
+                raise VirtualDeadlock("asyncio loop would block for ever (only infinite timers are scheduled)")
             target = self._vtime + timeout
             if sched:
                 when = sched[0]._when
